@@ -101,10 +101,11 @@ Notation Closed := (Closed T tab_el tab_en).
 
 (* the world only grows *)
 Definition ext (w w' : world) : Prop :=
-  w_next w <= w_next w' /\ List.length (w_models w') = List.length (w_models w) /\ w_files w' = w_files w.
+  w_next w <= w_next w' /\ List.length (w_models w') = List.length (w_models w) /\
+  (List.length (w_files w) <= List.length (w_files w'))%nat.
 Lemma ext_refl w : ext w w. Proof. unfold ext. repeat split; lia. Qed.
 Lemma ext_trans a b c : ext a b -> ext b c -> ext a c.
-Proof. unfold ext. intros (A1 & A2 & A3) (B1 & B2 & B3). repeat split; [lia|congruence|congruence]. Qed.
+Proof. unfold ext. intros (A1 & A2 & A3) (B1 & B2 & B3). repeat split; [lia|congruence|lia]. Qed.
 
 Lemma node_ok_ext w w' n : ext w w' -> node_ok w n -> node_ok w' n.
 Proof.
@@ -122,7 +123,7 @@ Qed.
 Lemma ext_wset w i n : ext w (wset w i n). Proof. unfold ext, wset. cbn. repeat split; lia. Qed.
 Lemma ext_walloc w n : ext w (walloc w n). Proof. unfold ext, walloc. cbn. repeat split; lia. Qed.
 Lemma ext_wmodel w m x : ext w (wmodel w m x).
-Proof. unfold ext, wmodel. cbn. repeat split; [lia|]. apply InvProofsBase.list_set_length. Qed.
+Proof. unfold ext, wmodel. cbn. repeat split; [lia| |lia]. apply InvProofsBase.list_set_length. Qed.
 
 Lemma Closed_wset w i n : Closed w -> i < w_next w -> node_ok w n -> Closed (wset w i n).
 Proof.
